@@ -550,17 +550,22 @@ class IntersectionMatcher(AdditiveBiMatcher):
                 # quality when added to the best posting in B (B's current
                 # block is not a bound: the skipped documents may fall in
                 # later, better blocks of B)
+                a_id = a.id()
                 sk = a.skip_to_quality(minquality - b.max_quality())
                 skipped += sk
-                if not sk and a.is_active():
+                if not sk and a.is_active() and a.id() == a_id:
                     # The matcher couldn't skip ahead for some reason, so just
-                    # advance and try again
+                    # advance and try again. (A matcher can move without
+                    # reporting skipped blocks, e.g. a nested intersection
+                    # that advanced with next(); the document it moved to has
+                    # not been looked at yet)
                     a.next()
             else:
                 # And vice-versa
+                b_id = b.id()
                 sk = b.skip_to_quality(minquality - a.max_quality())
                 skipped += sk
-                if not sk and b.is_active():
+                if not sk and b.is_active() and b.id() == b_id:
                     b.next()
 
             if not a.is_active() or not b.is_active():
